@@ -7,6 +7,12 @@ pub(super) mod replication_messages;
 pub mod server_tick;
 mod server_world;
 
+/// Wrappers around crate-private items for the external verification harness.
+#[cfg(feature = "verif_hooks")]
+pub mod verif_hooks {
+    pub use super::replication_messages::mutations::verif::{can_pack, mutations_split};
+}
+
 use core::{ops::Range, time::Duration};
 
 use bevy::{
